@@ -193,4 +193,3 @@ func serviceQuery(be filters.Backend, client *rpcclient.Client, q *query) ([]*ty
 	}
 	return out, nil
 }
-
